@@ -5,6 +5,7 @@ open Redproxy.QuicCache
 
 structure S where
   cache : Cache := none
+  rr : Nat := 0          -- the round-robin counter of the load balancer in the `L` cases
 
 def showO : Outcome → String
   | .ok => "ok" | .failFast => "failFast" | .timedOut => "failFast" | .hang => "hang"
@@ -14,32 +15,40 @@ def step (s : S) (line : String) : S × String :=
   | ["R", _, phase] =>
     -- stateless connectors: the outcome depends only on whether the upstream is up
     (s, showO (statelessAttempt (!phase.startsWith "down")))
+  | ["L", ups, k] =>
+    -- round robin over two stateless members: the member whose turn it is decides the outcome, nothing is remembered
+    match k.toNat? with
+    | some k =>
+      let up (m : Nat) : Bool := (ups.toList.getD m '0') == '1'
+      let os := (List.range k).map (fun i => showO (statelessAttempt (up ((s.rr + i) % 2))))
+      ({ s with rr := s.rr + k }, String.intercalate "," os)
+    | none => (s, "bad-op")
   | ["X", _, _] => (s, "before=11 open-tunnel-error=1 client-closed=1 other-tunnel-alive=1")
   | ["Q", what] =>
     if what == "initial" || what == "reuse" then
       let (c, o) := attempt true s.cache
-      ({ cache := c }, showO o)
+      ({ s with cache := c }, showO o)
     else if what.startsWith "during-outage" then
       -- SIGKILL: the endpoint has not noticed; the upstream is down
       let (c, _) := attempt false (outage false s.cache)
-      ({ cache := c }, "fails")
+      ({ s with cache := c }, "fails")
     else if what == "silent-origin" then
       -- one tunnel to a healthy origin is open on the shared connection; a request to a silent origin times out
       let (c1, o1) := attempt true s.cache
       let sh : Shared := { cache := c1, tunnels := if o1 == Outcome.ok then 1 else 0 }
       let (sh2, o2) := silentOrigin false sh
       let (c3, o3) := attempt true sh2.cache
-      ({ cache := c3 }, s!"slow-request={showO o2} healthy-tunnel={sh.tunnels}{sh2.tunnels} next={showO o3}")
+      ({ s with cache := c3 }, s!"slow-request={showO o2} healthy-tunnel={sh.tunnels}{sh2.tunnels} next={showO o3}")
     else if what.startsWith "after-orderly-close" then
       -- CONNECTION_CLOSE reached the connector: the endpoint knows
       let (c, os) := attempts attempt true 2 (outage true s.cache)
-      ({ cache := c }, s!"recovered={if os.contains Outcome.ok then 1 else 0} attempts<=2:1 hang={if os.contains Outcome.hang then 1 else 0}")
+      ({ s with cache := c }, s!"recovered={if os.contains Outcome.ok then 1 else 0} attempts<=2:1 hang={if os.contains Outcome.hang then 1 else 0}")
     else if what.startsWith "after-restart" then
       let c0 := outage false s.cache
       let (c, os) := attempts attempt true 2 c0
       let firstOk := os.head? == some Outcome.ok
       let _ := firstOk
-      ({ cache := c }, s!"recovered={if os.contains Outcome.ok then 1 else 0} attempts<=2:1 hang={if os.contains Outcome.hang then 1 else 0}")
+      ({ s with cache := c }, s!"recovered={if os.contains Outcome.ok then 1 else 0} attempts<=2:1 hang={if os.contains Outcome.hang then 1 else 0}")
     else (s, "bad-op")
   | _ => (s, "bad-op")
 
